@@ -38,7 +38,21 @@ def step (st : Option St) (w : List String) : Option St × String :=
       let f := if fl = "t32" then Flavor.t32 else Flavor.t64
       match devs.mapM (parseDev f) with
       | some ds =>
-        (some { flavor := f, now := now, listenOnly := mode == 0, canClaim := mode == 1 || mode == 2,
+        (some { flavor := f, now := now, listenOnly := mode == 0, claimMode := mode == 1 || mode == 2,
+                lists := {}, devs := ds,
+                ring := { n := q, buf := fun _ => emptyFrame, read := 0, write := 0 },
+                drv := { script := [], dflt := true, sent := [] } }, "ok")
+      | none => (st, "bad-op")
+    | _, _, _ => (st, "bad-op")
+  | "reset0" :: fl :: q :: mode :: now :: devs =>
+    -- a node that has just been constructed at time `now` (not opened yet)
+    match nat? q, nat? mode, nat? now with
+    | some q, some mode, some now =>
+      let f := if fl = "t32" then Flavor.t32 else Flavor.t64
+      match devs.mapM (parseDev f) with
+      | some ds =>
+        (some { flavor := f, now := now, listenOnly := mode == 0, claimMode := mode == 1 || mode == 2,
+                openState := 0, openSched := Sched.fromNow f now 0,
                 lists := {}, devs := ds,
                 ring := { n := q, buf := fun _ => emptyFrame, read := 0, write := 0 },
                 drv := { script := [], dflt := true, sent := [] } }, "ok")
@@ -68,9 +82,10 @@ def step (st : Option St) (w : List String) : Option St × String :=
     | ["t", ms] => match nat? ms with
       | some k => (some { s with now := s.now + k }, "ok")
       | none => (st, "bad-op")
+    | ["canopen", b] => (some { s with canOpenOk := b == "1" }, "ok")
     | ["q"] => (st, s!"{s.ring.read} {s.ring.write}")
     | ["poll"] =>
-      let (s', fr) := takeSent (poll s)
+      let (s', fr) := takeSent (pollTop s)
       (some s', s!"- {framesStr fr}")
     | ["claim", d] => match nat? d with
       | some d =>
@@ -81,7 +96,7 @@ def step (st : Option St) (w : List String) : Option St × String :=
       match nat? prio, nat? pgn, nat? src, nat? dst, nat? len, hexBytes? hx with
       | some prio, some pgn, some src, some dst, some len, some data =>
         let dev : Option Nat := if d.startsWith "-" then none else nat? d
-        let (s1, ret) := sendMsg s { prio := prio, pgn := pgn, src := src, dst := dst, len := len, data := data } dev
+        let (s1, ret) := sendMsgTop s { prio := prio, pgn := pgn, src := src, dst := dst, len := len, data := data } dev
         let (s2, fr) := takeSent s1
         (some s2, s!"{boolStr ret} {framesStr fr}")
       | _, _, _, _, _, _ => (st, "bad-op")
